@@ -518,7 +518,11 @@ func (hm *HostMap) unlockedDeleteHostInfo(hostinfo *HostInfo) bool {
 		}
 	}
 
-	delete(hm.Indexes, hostinfo.localIndexId)
+	// Same ownership rule as RemoteIndexes: a repeated delete of an already removed hostinfo must not
+	// release an index that was handed out again in the meantime.
+	if hm.Indexes[hostinfo.localIndexId] == hostinfo {
+		delete(hm.Indexes, hostinfo.localIndexId)
+	}
 	if len(hm.Indexes) == 0 {
 		hm.Indexes = map[uint32]*HostInfo{}
 	}
@@ -537,7 +541,9 @@ func (hm *HostMap) unlockedDeleteHostInfo(hostinfo *HostInfo) bool {
 	}
 	// Clean up any local relay indexes for which I am acting as a relay hop
 	for _, localRelayIdx := range hostinfo.relayState.CopyRelayForIdxs() {
-		delete(hm.Relays, localRelayIdx)
+		if hm.Relays[localRelayIdx] == hostinfo {
+			delete(hm.Relays, localRelayIdx)
+		}
 	}
 
 	return final
